@@ -45,6 +45,52 @@ def reply_items(rn, locator_ids):
     return "ok " + ",".join(i.hash[:8].hex() for i in items[0].items) if items else "err noreply"
 
 
+def server_items(rn, locator_ids):
+    """the items (full ids) of the inventory the real responder sends for this locator; None if it raises"""
+    peer = rn.peers[0]
+    n0 = len(rn.frames(peer))
+    try:
+        peer.handle_get_blocks_message_received(MessageHeader(0, 9, 0, 1), GetBlocksMessage(list(locator_ids)))
+    except Exception:
+        return None
+    fr = rn.frames(peer)[n0:]
+    items = [m for _, m in fr if isinstance(m, InventoryMessage)]
+    peer.send_backlog.clear()
+    peer.send_buffer = b""
+    return [i.hash for i in items[0].items] if items else None
+
+
+def real_walk(server, requester, loc, fuel):
+    """the follow-up loop with the real handlers on both sides: the responder's handle_get_blocks_message_received and
+    the requester's handle_inventory_message_received (whose next GetBlocks message is what is sent back);
+    returns (all listed ids, ids whose data the requester asked for) or an error string"""
+    listed, asked = [], []
+    rpeer = requester.peers[0]
+    for _ in range(fuel):
+        items = server_items(server, loc)
+        if items is None:
+            return "err", asked
+        if not items:
+            break
+        listed += items
+        n0 = len(requester.frames(rpeer))
+        try:
+            rpeer.handle_inventory_message_received(MessageHeader(0, 11, 0, 1), InventoryMessage(
+                [rp.InventoryItem(DATA_BLOCK, h) for h in items]))
+        except Exception as e:
+            return "err " + type(e).__name__, asked
+        out = [m for _, m in requester.frames(rpeer)[n0:]]
+        rpeer.send_backlog.clear()
+        rpeer.send_buffer = b""
+        rpeer.inventory_messages = []
+        asked += [m.hash for m in out if isinstance(m, rp.GetDataMessage)]
+        nxt = [m for m in out if isinstance(m, GetBlocksMessage)]
+        if len(nxt) != 1:
+            return "err followup", asked
+        loc = list(nxt[0].potential_start_hashes)
+    return listed, asked
+
+
 def part_a(ctx, res):
     rng = ctx.rng
     for si in range(ctx.scale(4, 14)):
@@ -66,6 +112,8 @@ def part_a(ctx, res):
                     b = tree.extend(b.hash(), n_tx=0)
         rn = node.RealNode(tree.cs, tree.blocks)
         rn.add_peer(active=True)
+        rq = node.RealNode(tree.cs, tree.blocks)          # the requester of the follow-up loop
+        rq.add_peer(active=True)
         ops = list(lines) + ["new t"] + ["addnv t t " + hx(b.serialize()) for b in tree.blocks] + ["node new t 0", "node peer 1 0"]
         impl = ["ok"] * len(ops)
         cs = tree.cs
@@ -97,6 +145,37 @@ def part_a(ctx, res):
                     ids = r[3:].split(",")
                     if len(ids) > batch:
                         res.violations.append({"kind": "inventory larger than the batch size"})
+                # the follow-up loop (real handlers on both sides) against the model's `walk`
+                srv_view = chain.view(cs, head)
+                fuel = srv_view.head().height + 2
+                # the requester stores only its own chain (as after a restart on that branch)
+                own_ids = {b_.hash() for b_ in v.by_height_at_head().values()}
+                from skepticoin.coinstate import CoinState as _CS
+                req_state = _CS.empty()
+                for h_ in sorted(v.by_height_at_head().keys()):
+                    req_state = req_state.add_block_no_validation(v.by_height_at_head()[h_])
+                rq.cm.set_coinstate(req_state)
+                listed, asked = real_walk(rn, rq, loc, fuel)
+                ops.append("node walk %d %s" % (fuel, " ".join(x.hex() for x in loc)))
+                impl.append(listed if isinstance(listed, str) else "ok " + ",".join(h[:8].hex() for h in listed))
+                res.case(("walk", si, head, other), nontrivial=True)
+                res.count("walks")
+                if not isinstance(listed, str):
+                    # (M) every block of the responder's active chain is listed or already stored by the requester,
+                    # whenever the requester's head is lower than the responder's
+                    if v.head().height < srv_view.head().height:
+                        missing = [b_ for b_ in srv_view.by_height_at_head().values()
+                                   if b_.hash() not in listed and b_.hash() not in req_state.block_by_hash]
+                        if missing:
+                            res.violations.append({"kind": "the follow-up loop ends without listing %d block(s) of the responder's "
+                                                           "active chain that the requester lacks" % len(missing),
+                                                   "server_height": srv_view.head().height, "requester_height": v.head().height,
+                                                   "first_missing_height": min(b_.height for b_ in missing)})
+                    # (M) data is requested for exactly the listed blocks the requester does not store
+                    want = [h for h in listed if h not in req_state.block_by_hash]
+                    if asked != want:
+                        res.violations.append({"kind": "the requester did not ask for exactly the listed blocks it lacks",
+                                               "asked": len(asked), "expected": len(want)})
             # adversarial locators: shuffled, with unknown ids, single entries, empty
             for _ in range(ctx.scale(6, 20)):
                 k = rng.randrange(0, 6)
@@ -107,6 +186,7 @@ def part_a(ctx, res):
                 res.case(("adversarial", si, tuple(loc)), nontrivial=True)
                 res.count("adversarial_locators")
         rn.close()
+        rq.close()
         model = ctx.driver.ask(ops)
         kit.compare(res, ops, impl, model)
     rp.GET_BLOCKS_INVENTORY_SIZE = 500
